@@ -40,7 +40,7 @@ theorem newReporter_eq : newReporter = newReporterExpected := rfl
 
 /-- `dataSinkAggregator.Run`: deferred [sink.Close, DroppedErr] registered BEFORE the deferred encoder Close/Flush (so it runs after it); main select {sample | flushTick (flush only when nothing was flushed since the last tick) | ctx.Done → leave the loop}; drain loop {sample | default → return nil} — model `.recv`, `.tick`, `.seeCancel`, `.drain` -/
 def encoderRunExpected : String :=
-  "func($0 context.Context, $1 core.AggregatorDeps) ($2 error) {set($3.AggregatorDeps=$1) $3.conf.Sink.OpenSink if($2 != nil){return()} defer{$4.Close $3.DroppedErr} $3.newEncoder defer{if($5){$6.Close return()} $7.Flush} if($3.conf.FlushInterval > 0){time.NewTicker} $8:for{select{case $9 := <-$3.Incomming:{$3.handleSample if($2 != nil){return()}} case <-$10:{if($11 == $12){$7.Flush if($2 != nil){return()}}} case <-$0.Done():{break $8}}} for{select{case $13 := <-$3.Incomming:{$3.handleSample if($2 != nil){return()}} default:{return(nil)}}}}"
+  "func($0 context.Context, $1 core.AggregatorDeps) ($2 error) {set($3.AggregatorDeps=$1) $3.conf.Sink.OpenSink if($2 != nil){return()} defer{$4.Close $3.DroppedErr} $3.newEncoder defer{if($5){$6.Close return()} $7.Flush} if($3.conf.FlushInterval > 0){time.NewTicker} $8:for{select{case <-$0.Done():{break $8} case <-$9:{if($10 == $11){$7.Flush if($2 != nil){return()}}} case $12 := <-$3.Incomming:{$3.handleSample if($2 != nil){return()}}}} for{select{case $13 := <-$3.Incomming:{$3.handleSample if($2 != nil){return()}} default:{return(nil)}}}}"
 theorem encoderRun_eq : encoderRun = encoderRunExpected := rfl
 
 /-- `handleSample`: Encode, error → return -/
@@ -85,7 +85,7 @@ theorem engineIsStartFinished_eq : engineIsStartFinished = engineIsStartFinished
 
 /-- `awaitRun`: loop while toWait > 0 over the four result channels; start and run results call the check — model `.awaitProv/.awaitAgg/.awaitStart/.awaitInst` -/
 def engineAwaitRunExpected : String :=
-  "func() {for($0.toWait > 0){select{case $1 := <-$0.providerErr:{set($0.providerErr=nil) $0.toWait-- errutil.IsCtxError($0.runCtx) if(!errutil.IsCtxError($0.runCtx, $1)){$0.onErrAwaited}} case $2 := <-$0.aggregatorErr:{set($0.aggregatorErr=nil) $0.toWait-- errutil.IsCtxError($0.runCtx) if(!errutil.IsCtxError($0.runCtx, $2)){$0.onErrAwaited}} case $3 := <-$0.startRes:{set($0.startRes=nil) $0.toWait-- set($0.startedInstances=$3.Started) errutil.IsCtxError($0.instanceStartCtx) if(!errutil.IsCtxError($0.instanceStartCtx, $3.Err)){$0.onErrAwaited} $0.checkAllInstancesAreFinished} case $4 := <-$0.runRes:{$0.awaitedInstances++ if($4.Err == outOfAmmoErr){$0.isStartFinished if(!$0.isStartFinished()){$0.instanceStartCancel}}else{errutil.IsCtxError($0.runCtx) if(!errutil.IsCtxError($0.runCtx, $4.Err)){$0.onErrAwaited}} $0.checkAllInstancesAreFinished}}}}"
+  "func() {for($0.toWait > 0){select{case $1 := <-$0.aggregatorErr:{set($0.aggregatorErr=nil) $0.toWait-- errutil.IsCtxError($0.runCtx) if(!errutil.IsCtxError($0.runCtx, $1)){$0.onErrAwaited}} case $2 := <-$0.providerErr:{set($0.providerErr=nil) $0.toWait-- errutil.IsCtxError($0.runCtx) if(!errutil.IsCtxError($0.runCtx, $2)){$0.onErrAwaited}} case $3 := <-$0.runRes:{$0.awaitedInstances++ if($3.Err == outOfAmmoErr){$0.isStartFinished if(!$0.isStartFinished()){$0.instanceStartCancel}}else{errutil.IsCtxError($0.runCtx) if(!errutil.IsCtxError($0.runCtx, $3.Err)){$0.onErrAwaited}} $0.checkAllInstancesAreFinished} case $4 := <-$0.startRes:{set($0.startRes=nil) $0.toWait-- set($0.startedInstances=$4.Started) errutil.IsCtxError($0.instanceStartCtx) if(!errutil.IsCtxError($0.instanceStartCtx, $4.Err)){$0.onErrAwaited} $0.checkAllInstancesAreFinished}}}}"
 theorem engineAwaitRun_eq : engineAwaitRun = engineAwaitRunExpected := rfl
 
 /-- `awaitRunAsync`: after awaitRun: close(awaitErr), onWaitDone — model `.waitDone` -/
@@ -100,7 +100,7 @@ theorem engineWait_eq : engineWait = engineWaitExpected := rfl
 
 /-- `Engine.Run`: one goroutine per pool runs `pool.Run(ctx)` and offers its result on `runRes` (or drops it when the engine's context is done); the loop receives exactly `len(Pools)` results, returns at the first non-nil one or when the context is done, and `nil` only after all of them were nil — model `C06Engine` `.poolSend/.engRecv/.engCtxDone` -/
 def engineRunExpected : String :=
-  "func($0 context.Context) error {ctx($0, $1 <- $0) defer{$1} range($2.config.Pools){if($3.ID == \"\"){set($3.ID=…)} $2.wait.Add newPool go{$4.Run($0) select{case $5 <- poolRunResult{ID: $4.ID, Err: $6}:{} case <-$0.Done():{}}}} for($7 < len($2.config.Pools); $7++){select{case $8 := <-$5:{if($8.Err != nil){select{case <-$0.Done():{return($0.Err())} default:{}} return(errors.WithMessage($8.Err, fmt.Sprintf(\"…\", $8.ID)))}} case <-$0.Done():{return($0.Err())}}} return(nil)}"
+  "func($0 context.Context) error {ctx($0, $1 <- $0) defer{$1} range($2.config.Pools){if($3.ID == \"\"){set($3.ID=…)} $2.wait.Add newPool go{$4.Run($0) select{case <-$0.Done():{} case $5 <- poolRunResult{Err: $6, ID: $4.ID}:{}}}} for($7 < len($2.config.Pools); $7++){select{case <-$0.Done():{return($0.Err())} case $8 := <-$5:{if($8.Err != nil){select{case <-$0.Done():{return($0.Err())} default:{}} return(errors.WithMessage($8.Err, fmt.Sprintf(\"…\", $8.ID)))}}}} return(nil)}"
 theorem engineRun_eq : engineRun = engineRunExpected := rfl
 
 /-- `instancePool.Run`: after `awaitRunAsync` the only `return nil` is under `case err, ok := <-awaitErr` with `!ok` — the channel was closed, which `awaitRunAsync` does after `awaitRun` returned; the context case returns `ctx.Err()` — model `C06Engine` `.poolRetClosed/.poolRetErr/.poolRetCtx` -/
@@ -110,7 +110,7 @@ theorem enginePoolRun_eq : enginePoolRun = enginePoolRunExpected := rfl
 
 /-- `runAsync`: `runCtx` is a child of the pool context, `instanceStartCtx` a child of `runCtx`; provider and aggregator run under `runCtx`, `startInstances` gets (`instanceStartCtx`, `runCtx`); the handle keeps both cancel functions — model `C06Engine.cancelledBy` -/
 def engineRunAsyncExpected : String :=
-  "func($0 context.Context) (*poolAsyncRunHandle, error) {ctx($1, $2 <- $0) ctx($3, $4 <- $1) $5.buildNewInstanceSchedule($3, $4) if($6 != nil){return(nil, $6)} go{$5.Provider.Run($1) send($7)} go{$5.Aggregator.Run($1) send($8)} go{$5.startInstances($3, $1) send($9)} return(&poolAsyncRunHandle{ poolCtx: $0, runCtx: $1, runCancel: $2, instanceStartCtx: $3, instanceStartCancel: $4, providerErr: $7, aggregatorErr: $8, runRes: $10, startRes: $9, }, nil)}"
+  "func($0 context.Context) (*poolAsyncRunHandle, error) {ctx($1, $2 <- $0) ctx($3, $4 <- $1) $5.buildNewInstanceSchedule($3, $4) if($6 != nil){return(nil, $6)} go{$5.Aggregator.Run($1) send($7)} go{$5.Provider.Run($1) send($8)} go{$5.startInstances($3, $1) send($9)} return(&poolAsyncRunHandle{ aggregatorErr: $7, instanceStartCancel: $4, instanceStartCtx: $3, poolCtx: $0, providerErr: $8, runCancel: $2, runCtx: $1, runRes: $10, startRes: $9, }, nil)}"
 theorem engineRunAsync_eq : engineRunAsync = engineRunAsyncExpected := rfl
 
 /-- `startInstances`: instances are created under the second context (`runCtx`), every instance goroutine sends its `Run` result on `runRes` after `Run` returned, `started` counts the goroutines — model `C06Pool` `.launch/.finish/.startDone` -/
@@ -120,7 +120,7 @@ theorem engineStartInstances_eq : engineStartInstances = engineStartInstancesExp
 
 /-- `onErrAwaited`: the error is handed to `pool.Run` or dropped when the pool's context is done; it never closes anything -/
 def engineOnErrAwaitedExpected : String :=
-  "func($0 error) {select{case $1.awaitErr <- $0:{} case <-$1.poolCtx.Done():{$1.poolCtx.Err}}}"
+  "func($0 error) {select{case <-$1.poolCtx.Done():{$1.poolCtx.Err} case $1.awaitErr <- $0:{}}}"
 theorem engineOnErrAwaited_eq : engineOnErrAwaited = engineOnErrAwaitedExpected := rfl
 
 /-- `runNewInstance`: `instance.Run(ctx)` synchronously, gun closed afterwards -/
@@ -135,7 +135,7 @@ theorem engineInstanceRun_eq : engineInstanceRun = engineInstanceRunExpected := 
 
 /-- `phoutAggregator.Run`: deferred Flush then Close; select {sample (+ flush if the 1 s ticker fired) | time.After flush | ctx.Done → drain until `default`} — model kind `.phout` -/
 def phoutRunExpected : String :=
-  "func($0 context.Context, $1 core.AggregatorDeps) error {time.NewTicker defer{$2.writer.Flush $2.file.Close} $3:for{select{case $4 := <-$2.sink:{$2.handle if($5 != nil){return($5)} select{case <-$6.C:{$2.writer.Flush} default:{}}} case <-time.After(1 * time.Second):{$2.writer.Flush} case <-$0.Done():{for{select{case $7 := <-$2.sink:{$2.handle if($8 != nil){return($8)}} default:{break $3}}}}}} return(nil)}"
+  "func($0 context.Context, $1 core.AggregatorDeps) error {time.NewTicker defer{$2.writer.Flush $2.file.Close} $3:for{select{case <-$0.Done():{for{select{case $4 := <-$2.sink:{$2.handle if($5 != nil){return($5)}} default:{break $3}}}} case <-time.After(1 * time.Second):{$2.writer.Flush} case $6 := <-$2.sink:{$2.handle if($7 != nil){return($7)} select{case <-$8.C:{$2.writer.Flush} default:{}}}}} return(nil)}"
 theorem phoutRun_eq : phoutRun = phoutRunExpected := rfl
 
 /-- `phoutAggregator.Report`: a blocking send -/
@@ -150,7 +150,7 @@ theorem newPhout_eq : newPhout = newPhoutExpected := rfl
 
 /-- `awaitPandoraTermination` — model `CliShutdown.step true` -/
 def cliAwaitTerminationExpected : String :=
-  "func($0 *engine.Engine, $1 func(), $2 chan error, $3 *zap.Logger) {signal.Notify select{case $4 := <-$5:{switch($4){case syscall.SIGINT:{$1} case syscall.SIGTERM:{$1} default:{exit}} time.After select{case <-$6:{exit} case $7 := <-$5:{exit} case $8 := <-$2:{go{$0.Wait close($9)} select{case <-$9:{} case <-$6:{exit} case $10 := <-$5:{exit}} exit}}} case $11 := <-$2:{switch($11){case nil:{} case $11:{$1 time.AfterFunc $0.Wait exit}}}}}"
+  "func($0 *engine.Engine, $1 func(), $2 chan error, $3 *zap.Logger) {signal.Notify select{case $4 := <-$2:{switch($4){case nil:{} case $4:{$1 time.AfterFunc $0.Wait exit}}} case $5 := <-$6:{switch($5){case syscall.SIGINT:{$1} case syscall.SIGTERM:{$1} default:{exit}} time.After select{case <-$7:{exit} case $8 := <-$6:{exit} case $9 := <-$2:{go{$0.Wait close($10)} select{case <-$7:{exit} case <-$10:{} case $11 := <-$6:{exit}} exit}}}}}"
 theorem cliAwaitTermination_eq : cliAwaitTermination = cliAwaitTerminationExpected := rfl
 
 /-- `runEngine`: `errs <- engine.Run(ctx)` -/
